@@ -99,6 +99,9 @@ func (o pathOp) String() string {
 	case opHRemove:
 		return fmt.Sprintf("H.Remove%v", o.A)
 	case opReattach:
+		if o.Label == "overwrite" {
+			return fmt.Sprintf("h:=Child%v;SetString%v=OW;SetChild%v=h", o.From, o.From, o.A)
+		}
 		return fmt.Sprintf("h:=Child%v;Remove%v;SetChild%v=h", o.From, o.From, o.A)
 	case opMergeOwn:
 		return fmt.Sprintf("Merge({%s:Child%v})", o.A.Name, o.From)
@@ -207,6 +210,9 @@ func buildPathUniverse(prop string, rich bool) *pathUniverse {
 	if prop == "C15" {
 		for _, p := range [][2]addr{{{"a", -1, true}, {"b", -1, true}}, {{"a", 0, true}, {"b", -1, true}}, {{"a.a", -1, true}, {"b", 0, true}}} {
 			u.ops = append(u.ops, pathOp{Kind: opReattach, From: p[0], A: p[1]})
+		}
+		for _, p := range [][2]addr{{{"a", -1, true}, {"b", -1, true}}, {{"a", 0, true}, {"b", -1, true}}, {{"b", -1, true}, {"a.a", -1, true}}} {
+			u.ops = append(u.ops, pathOp{Kind: opReattach, From: p[0], A: p[1], Label: "overwrite"})
 		}
 	}
 	return u
@@ -328,10 +334,21 @@ func (st *pathState) apply(o pathOp) *core.Violation {
 		if err != nil {
 			return bad("child-missing", err.Error())
 		}
-		if _, err := st.root.Remove(o.From.Name, o.From.Idx, o.From.opts()...); err != nil {
-			return bad("remove", err.Error())
+		if o.Label == "overwrite" {
+			// the child is not removed but overwritten by a primitive before it is attached again
+			if err := st.root.SetString(o.From.Name, o.From.Idx, "OW", o.From.opts()...); err != nil {
+				return bad("overwrite", err.Error())
+			}
+			tree.Set(st.mroot, o.From.segs(), tree.LeafN("OW"))
+			if !tree.Set(st.mroot.Clone(), o.A.segs(), tree.NilN()) {
+				return nil // (not settable any more after the overwrite: model and probe agree on skipping)
+			}
+		} else {
+			if _, err := st.root.Remove(o.From.Name, o.From.Idx, o.From.opts()...); err != nil {
+				return bad("remove", err.Error())
+			}
+			tree.Remove(st.mroot, o.From.segs())
 		}
-		tree.Remove(st.mroot, o.From.segs())
 		if err := st.root.SetChild(o.A.Name, o.A.Idx, c, o.A.opts()...); err != nil {
 			return bad("setchild", err.Error())
 		}
